@@ -240,8 +240,11 @@ func (association *Association) Delete(values ...interface{}) error {
 					}
 				}
 				if _, fvs := schema.GetIdentityFieldValuesMap(association.DB.Statement.Context, reflectValue, foreignFields); len(fvs) > 0 {
+					// only the named targets are deleted, and only if they are the linked records
+					_, tvs := schema.GetIdentityFieldValuesMapFromValues(association.DB.Statement.Context, values, rel.FieldSchema.PrimaryFields)
+					tcolumn, tvalues := schema.ToQueryValues(rel.FieldSchema.Table, rel.FieldSchema.PrimaryFieldDBNames, tvs)
 					column, values := schema.ToQueryValues(rel.FieldSchema.Table, rel.FieldSchema.PrimaryFieldDBNames, fvs)
-					association.Error = associationDB.Model(nil).Where(clause.IN{Column: column, Values: values}).Delete(reflect.New(rel.FieldSchema.ModelType).Interface()).Error
+					association.Error = associationDB.Model(nil).Where(clause.IN{Column: column, Values: values}).Where(clause.IN{Column: tcolumn, Values: tvalues}).Delete(reflect.New(rel.FieldSchema.ModelType).Interface()).Error
 				}
 			}
 		case schema.HasOne, schema.HasMany:
